@@ -65,7 +65,7 @@ def corpus(rnd, serial, mem):
 def deliver(serial, raw, damaged=None):
     """feed one frame; `damaged` = tag of a corruption of a valid frame that the statement says must be rejected"""
     if damaged:
-        return [R.src_op(R.wire(serial, raw)), "rp.recvx " + damaged, "rp.process", "rp.free"]
+        return ["rp.recvx %s %s" % (damaged, R.hexs(R.wire(serial, raw))), "rp.process", "rp.free"]
     return [R.src_op(R.wire(serial, raw))] + rpf()
 
 
